@@ -149,6 +149,7 @@ type world struct {
 	hs     []*hybrid.Storage
 	nodes  []*node
 	pers   *vkit.GatePersistent // persistent tier (nil: memory-only hybrid)
+	persF  *persFaults
 	pre    func(op, key string) // optional hook: a task arrives at a tier write (see selCache.pre)
 }
 
@@ -198,7 +199,8 @@ func newWorldWith(nNodes int, cfg *services.ConnectionCodeServiceConfig, gated b
 	}
 	if persist {
 		w.pers = vkit.NewGatePersistent(nil, "pers")
-		pers = w.pers
+		w.persF = &persFaults{GatePersistent: w.pers}
+		pers = w.persF
 		if w.g != nil {
 			w.g.Grace = 400 * time.Microsecond // hybrid's asynchronous cache write-back goroutines are adopted as tasks
 		}
@@ -345,4 +347,34 @@ func normSteps(log []vkit.Step) string {
 		b.WriteString(s.Task + ":" + strings.TrimPrefix(s.Op, "cache.") + "(" + strings.TrimPrefix(normKey(s.Key), "tunnox:") + ")")
 	}
 	return b.String()
+}
+
+// persFaults can make the k-th Set of a mapping record on the PERSISTENT tier fail (the record is not stored there).
+type persFaults struct {
+	*vkit.GatePersistent
+	mu     sync.Mutex
+	failAt int // 1-based; 0 none
+	seen   int
+	Fired  string
+}
+
+func (p *persFaults) arm(k int) { p.mu.Lock(); p.failAt, p.seen, p.Fired = k, 0, ""; p.mu.Unlock() }
+
+func (p *persFaults) Set(key string, value any) error {
+	if strings.HasPrefix(key, pmPrefix) {
+		p.mu.Lock()
+		hit := false
+		if p.failAt > 0 {
+			p.seen++
+			hit = p.seen == p.failAt
+			if hit {
+				p.Fired = key
+			}
+		}
+		p.mu.Unlock()
+		if hit {
+			return fmt.Errorf("%w (persistent Set %s)", vkit.ErrGateFault, key)
+		}
+	}
+	return p.GatePersistent.Set(key, value)
 }
